@@ -88,10 +88,21 @@ pub fn run_impl(file: &File, tree: &Tree, src: &str, info: &TreeInfo, cfg: &RunC
 }
 
 /// `execute_into` on an existing graph (which keeps whatever the run did, also on failure)
+/// C12: every execution of the process (all threads) uses ONE function table, as a caller that builds `Functions::stdlib()`
+/// once would; off for the other checks
+pub static SHARE_FUNCTIONS: std::sync::atomic::AtomicBool = std::sync::atomic::AtomicBool::new(false);
+static SHARED_FUNCTIONS: std::sync::OnceLock<Functions> = std::sync::OnceLock::new();
+
 pub fn run_impl_into<'t>(graph: &mut Graph<'t>, file: &File, tree: &'t Tree, src: &'t str, info: &TreeInfo, cfg: &RunCfg) -> ImplRun {
     let flag = CountingFlag { count: Cell::new(0), cancel_at: cfg.cancel_at };
     let r = catch_unwind(AssertUnwindSafe(|| {
-        let functions = Functions::stdlib();
+        let own_functions;
+        let functions: &Functions = if SHARE_FUNCTIONS.load(std::sync::atomic::Ordering::SeqCst) {
+            SHARED_FUNCTIONS.get_or_init(Functions::stdlib)
+        } else {
+            own_functions = Functions::stdlib();
+            &own_functions
+        };
         let mut outer = Variables::new();
         for (k, v) in &cfg.outer_globals {
             outer.add(Identifier::from(k.as_str()), v.clone()).expect("duplicate global in harness");
@@ -102,7 +113,7 @@ pub fn run_impl_into<'t>(graph: &mut Graph<'t>, file: &File, tree: &'t Tree, src
         }
         let before: Vec<(String, String)> = snapshot(&globals);
         let before_outer: Vec<(String, String)> = snapshot(&outer);
-        let mut config = ExecutionConfig::new(&functions, &globals).lazy(cfg.lazy);
+        let mut config = ExecutionConfig::new(functions, &globals).lazy(cfg.lazy);
         if let Some((l, v, m)) = &cfg.debug {
             config = config.debug_attributes(Identifier::from(l.as_str()), Identifier::from(v.as_str()), Identifier::from(m.as_str()));
         }
